@@ -6,13 +6,16 @@ Case lines (every string argument hex, "-" = empty; integers decimal):
   near <loc> <tok> <offSec> <ttlNs> <key> <vtok> <vttlNs> <vkey> <suffix> <nominalNowNs>
   manifest <text> <tok> <expUnix> <ttlNs> <key>
   get <loc> <tok> <signing> <ttlNs> <key> <absent|p<bodyhex>> <nominalNowNs>
+  getnow <loc> <tok> <ttlNs> <key> <absent|p<bodyhex>> <nominalNowNs>
   put <body> <tok> <tok2> <signing> <ttlNs> <key> <nominalNowNs>
 
 Time: the Go code reads the real clock. `verify`/`get` cases only carry expiry fields that are
 decades away from it (<= 0x5fffffff = 2021, or >= 0x80000000 = 2038), and the model is given the
 nominal clock 0x70000000 (2029) which lies on the same side of every such expiry; `near`/`put`
 cases sign relative to the real clock with margins of >= 5 s (past) / >= 60 s (future) and only
-verdicts are compared.
+verdicts are compared. "At now" (`near` with offset 0, `getnow`): the expiry is the whole second
+that has already begun, i.e. the expiry instant lies strictly before every later clock reading;
+the drivers report the clock before and after (ns) and the oracle judges against that window.
 """
 import hashlib
 import hmac
@@ -29,6 +32,10 @@ RULE = ("valid signed locators (hints before/after the signature, tokens with @ 
 ASSUMPTIONS = [
     "the real clock lies in [0x60000000, 0x80000000) (2021-2038); expiries in verify/get cases lie outside it",
     "near/put cases: the process is not stalled for >= 60 s between signing and verifying",
+    "at-now cases (near with offset 0, getnow): the expiry is the whole second that had already begun when the case "
+    "started, so on the unchanged code the verdict is 'expired'/401 whenever the verification runs (the wall clock is "
+    "assumed not to step backwards); the driver repeats an attempt that did not finish within that second only so that "
+    "a changed comparison is observed inside it",
     "|TTL| < 10^15 ns (int64(d.Seconds()) is then exact truncation)",
     "keepstore driver: Authorization header is 'Bearer <token>' with a whitespace-free token; GET paths contain no '/'; "
     "no RemoteClusters configured (remote proxy answers 401 without token, else 400)",
@@ -60,7 +67,7 @@ def U(s):
 
 
 def channel(case):
-    return "ks" if case.startswith(("get ", "put ")) else "sdk"
+    return "ks" if case.startswith(("get ", "put ", "getnow ")) else "sdk"
 
 
 # ----------------------------------------------------------------------------- reference (property text / blob.rb)
@@ -87,6 +94,7 @@ def ref_sign(loc, tok, exp, ttl_ns, key):
 
 HINT = rb"\+[B-Z][A-Za-z0-9@_-]*"
 STRICT = re.compile(rb"([0-9A-Fa-f]{32})(\+[0-9]+)?((?:" + HINT + rb")*)\+A([0-9A-Fa-f]{40})@([0-9A-Fa-f]{8})((?:" + HINT + rb")*)")
+STRICT_UNSIGNED = re.compile(rb"[0-9A-Fa-f]{32}(\+[0-9]+)?(?:" + HINT + rb")*")
 AFIELD = re.compile(rb"A([0-9A-Fa-f]{40})@([0-9A-Fa-f]{8})")
 
 
@@ -109,29 +117,51 @@ def ref_strict(loc, tok, ttl_ns, key):
     return (m.group(4) == ref_sig(key, m.group(1), tok, m.group(5), ttl_ns), int(m.group(5), 16))
 
 
-def judge_verdict(verdict, loc, tok, ttl_ns, key, now_s, margin):
-    """Property text on an implementation verdict. now_s: the clock (real or nominal); margin: how
-    far an expiry must be from now_s to be judged at all."""
+def side_by_margin(now_s, margin):
+    """classify an expiry against a clock in whole seconds; None = too close to judge"""
+    def side(e):
+        if abs(e - now_s) < margin:
+            return None
+        return "future" if e >= now_s else "past"
+    return side
+
+
+def side_by_window(t0_ns, t1_ns):
+    """classify an expiry against the interval [t0, t1] (ns) in which the verification ran:
+    past = the expiry instant lay before the verification started, future = it still lay ahead
+    when the verification had finished"""
+    def side(e):
+        if e * 10 ** 9 < t0_ns:
+            return "past"
+        if e * 10 ** 9 > t1_ns:
+            return "future"
+        return None
+    return side
+
+
+def judge_verdict(verdict, loc, tok, ttl_ns, key, side):
+    """Property text on an implementation verdict. side(e) says whether expiry e (whole seconds)
+    had passed ('past'), had not ('future'), or cannot be judged (None) when the code ran."""
     cands = ref_candidates(loc, tok, ttl_ns, key)
     strict = ref_strict(loc, tok, ttl_ns, key)
     for _, e in cands:
-        if abs(e - now_s) < margin:
+        if side(e) is None:
             return None     # too close to the clock to judge (never generated)
     if verdict == "ok":
-        if not any(good and e >= now_s for good, e in cands):
+        if not any(good and side(e) == "future" for good, e in cands):
             return "a locator verifies although it carries no unexpired HMAC-SHA1(hash@token@expiry@ttl) signature for this token/TTL/key"
     elif verdict == "expired":
-        if not any(e < now_s for _, e in cands):
+        if not any(side(e) == "past" for _, e in cands):
             return "reported as expired although no signature hint with a past expiry is present"
     elif verdict not in ("invalid", "missing"):
         return "unexpected verdict " + verdict[:100]
     if strict is not None:
         good, e = strict
-        if e < now_s and verdict != "expired":
+        if side(e) == "past" and verdict != "expired":
             return "a well-formed signature whose expiry has passed is not reported as expired"
-        if e >= now_s and good and verdict != "ok":
+        if side(e) == "future" and good and verdict != "ok":
             return "a validly signed, unexpired locator does not verify"
-        if e >= now_s and not good and verdict not in ("invalid", "missing"):
+        if side(e) == "future" and not good and verdict not in ("invalid", "missing"):
             return "a locator with a wrong signature is not rejected as invalid/missing"
     return None
 
@@ -193,19 +223,32 @@ def oracle(case, impl):
             return "signature is not HMAC-SHA1(key, hash@token@expiry-hex@ttl-hex)"
         return None
     if op == "verify":
-        return judge_verdict(impl, U(f[1]), U(f[2]), int(f[3]), U(f[4]), NOMINAL_NOW_S, 0x10000000)
+        return judge_verdict(impl, U(f[1]), U(f[2]), int(f[3]), U(f[4]), side_by_margin(NOMINAL_NOW_S, 0x10000000))
     if op == "near":
         g = impl.split(" ")
-        if len(g) != 4:
+        if len(g) != 6:
             return "malformed near output"
         loc, tok, off, ttl, key = U(f[1]), U(f[2]), int(f[3]), int(f[4]), U(f[5])
-        signed, exp, now = U(g[1]), int(g[2]), int(g[3])
-        if exp != now + off:
-            return "driver did not apply the offset"
+        signed, exp, now, t0, t1 = U(g[1]), int(g[2]), int(g[3]), int(g[4]), int(g[5])
+        if exp != now + off or t0 // 10 ** 9 != now or t1 < t0:
+            return "driver did not apply the offset / clock went backwards"
         want = (ref_sign(loc, tok, exp, ttl, key) if key and tok else loc) + U(f[9])
         if signed != want:
             return "SignLocator output is not loc+A<HMAC-SHA1(hash@token@expiry@ttl)>@<expiry>"
-        return judge_verdict(g[0], signed, U(f[6]), int(f[7]), U(f[8]), now, 4)
+        # the expiry instant against the interval in which VerifySignature ran
+        return judge_verdict(g[0], signed, U(f[6]), int(f[7]), U(f[8]), side_by_window(t0, t1))
+    if op == "getnow":
+        loc, tok, ttl, key = U(f[1]), U(f[2]), int(f[3]), U(f[4])
+        g = impl.split(" ")
+        if len(g) < 4:
+            return "malformed getnow output"
+        exp, t0, t1 = int(g[-3]), int(g[-2]), int(g[-1])
+        if exp * 10 ** 9 < t0:       # always: the expiry is the second that had already begun
+            if g[0] == "200":
+                return "keepstore returned block data for a locator whose expiry time had passed when it was presented"
+            if g[0] != "401":
+                return "keepstore answered %s, not 401, to a well-formed signature whose expiry has passed" % g[0]
+        return None
     if op == "manifest":
         return judge_manifest(U(f[1]), U(f[2]), int(f[3]), int(f[4]), U(f[5]), U(impl))
     if op == "get":
@@ -216,7 +259,7 @@ def oracle(case, impl):
             if hashlib.md5(body).hexdigest().encode() != loc[:32]:
                 return "GET returned data that does not belong to the requested hash"
             if signing:
-                why = judge_verdict("ok", loc, tok, ttl, key, NOMINAL_NOW_S, 0x10000000)
+                why = judge_verdict("ok", loc, tok, ttl, key, side_by_margin(NOMINAL_NOW_S, 0x10000000))
                 if why:
                     return "keepstore returned block data with blob signing on: " + why
             return None
@@ -267,6 +310,8 @@ def compare(case, impl, model):
     op = case.split(" ", 1)[0]
     if op == "near":
         return impl.split(" ")[0] == model
+    if op == "getnow":
+        return " ".join(impl.split(" ")[:-3]) == model
     if op == "put":
         g = impl.split(" ")
         if len(g) != 6:
@@ -278,7 +323,7 @@ def compare(case, impl, model):
 
 def nontrivial_key(case, impl):
     f = case.split(" ")
-    if f[0] in ("put",):
+    if f[0] in ("put", "getnow"):
         return case
     arg = U(f[1])
     if f[0] == "manifest":
@@ -418,16 +463,38 @@ def char_perturbations(loc, positions, rng, per_pos):
     return out
 
 
+def token_variants(t, rng):
+    """single-field perturbations of a token seen as '/'-separated parts (v2/uuid/secret and the
+    like): one part changed in one character, one part replaced, leading parts dropped, the token
+    wrapped as the last part of a longer one"""
+    out = set()
+    parts = t.split(b"/")
+    if len(parts) > 1:
+        for i, part in enumerate(parts):
+            if part:
+                j = rng.randrange(len(part))
+                c = b"0" if part[j:j + 1] != b"0" else b"1"
+                out.add(b"/".join(parts[:i] + [part[:j] + c + part[j + 1:]] + parts[i + 1:]))
+            out.add(b"/".join(parts[:i] + ["".join(rng.choice(TOKCH) for _ in range(max(1, len(part)))).encode()] + parts[i + 1:]))
+        for k in range(1, len(parts)):
+            out.add(b"/".join(parts[k:]))
+        out.add(b"/".join(parts[:-1]))
+    out.add(b"v2/zzzzz-gj3su-" + "".join(rng.choice(LHEX) for _ in range(15)).encode() + b"/" + t)
+    out.add(b"x/" + t)
+    out.discard(t)
+    return sorted(out)
+
+
 def field_perturbations(b, rng):
     """(locator, token, ttl, key) tuples, each differing from the valid base in one field"""
     L, t, ttl, k = b.signed, b.tok, b.ttl, b.key
     out = []
     # token
-    for t2 in {t[:-1], t + b"x", t + b"@", b"", t.swapcase(), b"x" + t, t[1:] + t[:1], t.replace(b"@", b"+"), g_token(rng)}:
+    for t2 in sorted({t[:-1], t + b"x", t + b"@", b"", t.swapcase(), b"x" + t, t[1:] + t[:1], t.replace(b"@", b"+"), g_token(rng)}) + token_variants(t, rng):
         if t2 != t:
             out.append((L, t2, ttl, k))
     # key
-    for k2 in {k[:-1], k + b"\x00", k + b"x", b"", k.swapcase(), g_key(rng)}:
+    for k2 in sorted({k[:-1], k + b"\x00", k + b"x", b"", k.swapcase(), g_key(rng)}):
         if k2 != k:
             out.append((L, t, ttl, k2))
     # TTL: one second more/less, sign flipped, sub-second change (same whole seconds => still valid)
@@ -536,7 +603,7 @@ def gen_sign(rng, tier):
     return cases
 
 
-OFFSETS = [-86400 * 365 * 5, -86400, -3600, -60, -5, 60, 3600, 86400 * 14, 86400 * 365 * 5]
+OFFSETS = [-86400 * 365 * 5, -86400, -3600, -60, -5, 0, 0, 0, 60, 3600, 86400 * 14, 86400 * 365 * 5]
 
 
 def gen_near(rng, tier):
@@ -627,6 +694,16 @@ def gen_ks(rng, tier):
         for m in rng.sample(char_perturbations(b.signed, sigexp, rng, 1), 5 if tier == "quick" else 30):
             if ks_ok(m) and b"\n" not in m:
                 cases.append(get_line(m, b.tok, True, b.ttl, b.key))
+        # the same locator requested with structurally related tokens (one '/'-part changed,
+        # prefix parts dropped, wrapped): keepstore must serve it to the signing token only
+        tvs = [t2 for t2 in token_variants(b.tok, rng) if not any(c in t2 for c in WS + b"\x0b\x00")]
+        for t2 in (rng.sample(tvs, min(4, len(tvs))) if tier == "quick" else tvs):
+            cases.append(get_line(b.signed, t2, True, b.ttl, b.key))
+        # "at now": signed by keepstore for the second that has begun, requested at once
+        if b.key and b.tok and STRICT_UNSIGNED.fullmatch(b.unsigned) and BLK.match(b.unsigned):
+            body = STORED_BY_HASH.get(b.unsigned[:32])
+            present = "absent" if body is None else "p" + body.hex()
+            cases.append(f"getnow {H(b.unsigned)} {H(b.tok)} {b.ttl} {H(b.key)} {present} {NOMINAL_NOW_NS}")
         # case-only changes of the signature (always present: keepstore must refuse them too)
         sig = b.signed[b.sig_at:b.sig_at + 40]
         letters = [i for i in range(40) if sig[i:i + 1].isalpha()]
@@ -649,7 +726,7 @@ def gen_ks(rng, tier):
         tok = g_token(rng)
         while any(c in tok for c in WS + b"\x0b\x00"):
             tok = g_token(rng)
-        tok2 = rng.choice([tok + b"x", b"", b"other"])
+        tok2 = rng.choice([tok + b"x", b"", b"other"] + [t2 for t2 in token_variants(tok, rng) if not any(c in t2 for c in WS + b"\x0b\x00")])
         ttl = rng.choice([60, 3600, 1209600, 90]) * 10 ** 9 + rng.choice([0, 0, 500000000])
         if rng.random() < 0.2:
             ttl = -rng.choice([5, 3600]) * 10 ** 9
@@ -676,7 +753,7 @@ def describe(cases, impl):
         if f[0] in ("verify", "near"):
             v = r.split(" ")[0]
             verdicts[v] = verdicts.get(v, 0) + 1
-        if f[0] in ("get", "put"):
+        if f[0] in ("get", "put", "getnow"):
             s = r.split(" ")[0]
             status[s] = status.get(s, 0) + 1
         if f[0] in ("verify", "near", "sign", "get") and any(x in U(f[2]) for x in (b"@", b"+")):
@@ -689,7 +766,7 @@ def describe(cases, impl):
                 side = "past" if int(m.group(5), 16) <= PAST_MAX else "future"
                 exp_side[side] = exp_side.get(side, 0) + 1
         if f[0] == "near":
-            k = "near" + ("-" if int(f[3]) < 0 else "+")
+            k = "near" + ("-" if int(f[3]) < 0 else "+" if int(f[3]) > 0 else "=at-now")
             exp_side[k] = exp_side.get(k, 0) + 1
     return {"ops": ops, "verify_verdicts": verdicts, "keepstore_status": status,
             "cases_with_@_or_+_in_token": tok_special, "well_formed_with_hints_after_signature": hints_after,
